@@ -359,3 +359,33 @@ Proof.
 Qed.
 
 End Tie2.
+
+(** the hypotheses are satisfiable: the machine does return a Repr on such operands (64-bit words) *)
+Example machine_tie2_nonvacuous :
+  (exists r m', SM.shr_mag 64 1000 (SM.TRefLarge [5; 0; 1; 7]) 70 SM.mem0 = Ok (r, m')) /\
+  (exists r m', SM.clear_bit 64 1000 (SM.TSmall 5) 0 SM.mem0 = Ok (r, m') /\ brepr_of_repr 64 r = BSmall 4) /\
+  (exists r m', SM.orx_mag 64 1000 (zop OpOr) (SM.TRefLarge [5; 0; 1]) (SM.TRefLarge [2; 0; 0; 7]) SM.mem0 = Ok (r, m') /\
+                brepr_of_repr 64 r = BLarge [7; 0; 1; 7]) /\
+  (exists r m', SM.and_mag 64 1000 (SM.TRefLarge [5; 0; 1]) (SM.TRefLarge [7; 0; 1; 7]) SM.mem0 = Ok (r, m') /\
+                brepr_of_repr 64 r = BLarge [5; 0; 1]) /\
+  brepr_ok 64 (BLarge [5; 0; 1; 7]).
+Proof.
+  split; [eexists; eexists; vm_compute; reflexivity|].
+  split; [eexists; eexists; split; vm_compute; reflexivity|].
+  split; [eexists; eexists; split; vm_compute; reflexivity|].
+  split; [eexists; eexists; split; vm_compute; reflexivity|].
+  cbn [brepr_ok]. split; [|split; [cbn; lia | cbn; lia]].
+  unfold Words.wf, Words.B. repeat constructor; lia.
+Qed.
+
+(** item (3) of round 4: no 16-bit build exists (force_bits="16" fails const evaluation in integer/src/mul/ntt.rs), so
+    w = 16 is tied by theorems only: the word-level statements hold at w = 16 as instances *)
+Theorem w16_instances :
+  (forall o f a b, brepr_ok 16 a -> brepr_ok 16 b -> ubig_op 16 o f a b = to_brepr 16 (zop f (bvalue 16 a) (bvalue 16 b))) /\
+  (forall by_ref r n, 0 <= n -> brepr_ok 16 r -> ubig_shr_form 16 by_ref r n = to_brepr 16 (Z.shiftr (bvalue 16 r) n)) /\
+  (forall by_ref cap r n, 0 <= n -> brepr_ok 16 r -> ubig_shl_form 16 by_ref cap r n = to_brepr 16 (Z.shiftl (bvalue 16 r) n)).
+Proof.
+  assert (H : 0 < 16) by lia.
+  split; [intros; apply (ubig_op_canonical 16 H); assumption|].
+  split; intros; [apply (ubig_shr_form_canonical 16 H) | apply (ubig_shl_form_canonical 16 H)]; assumption.
+Qed.
